@@ -477,7 +477,7 @@ impl<'de> de::Deserialize<'de> for StringHashSet {
             {
                 let mut values = StringHashSet::new();
 
-                while let Some(key) = visitor.next_key()? {
+                while let Some((key, _)) = visitor.next_entry::<String, de::IgnoredAny>()? {
                     values.insert(key);
                 }
 
